@@ -169,3 +169,17 @@ PROPS["C13"] = dict(
                 "hidden or non-covering layers are removable (lemma_skip_layer), empty alpha cells pass through (lemma_empty_alpha_layer), an opaque layer hides everything beneath (lemma_opaque_hides), "
                 "translation invariance (lemma_translate), locality (lemma_comp_local).",
 )
+
+PROPS["C06"] = dict(
+    units=["xbin_compress"],
+    trusted_base=COMMON_TRUST + [
+        "Buffer::get_char is used through its contract r == comp(stack, pos) proved in unit `composite` (imported as an assumed contract here)",
+        "TextAttribute::as_u8 is an uninterpreted function attr_byte(fg, bg, attr flags, ice mode): assumed to read exactly those four values (not the font page)",
+        "`Compression as u8` discriminants as Verus translates the #[repr(u8)] enum; picture at most 65535 x 65535 (the header stores u16 sizes)",
+    ],
+    unverified_remainder=["count_length (the cost look-ahead) is proved terminating and overflow-free only: no functional contract is needed, the run-ending decisions are free choices in the proof",
+                          "XBin::to_bytes around the compressor (header, palette, font blocks, SAUCE append) and the real decoder read_data_compressed are not under contract in this unit"],
+    explanation="compress_backtrack is proved against an independent decoder specification written from doc/FileFormats/x_bin.htm (decodes_to): the bytes it appends are, row by row, "
+                "a whole number of runs of 1..=64 cells that decode to exactly the `width` (character byte, attribute byte) pairs the uncompressed writer would emit for that row "
+                "(rows_ok), for every buffer, every look-ahead decision and every run length; bytes already in the output are untouched.",
+)
